@@ -517,7 +517,7 @@ class SymNum:
             if isinstance(o, float) and o == int(o):
                 o = int(o)
             else:
-                raise Abort('pow with non-integer exponent')
+                raise Abort('unsupported: pow with non-integer exponent')
         if o < 0:
             if Ctx.cur.decide(s.e == 0):
                 raise ZeroDivisionError('0 to a negative power')
@@ -573,7 +573,7 @@ class SymNum:
     # rounding
     def __round__(s, ndigits=None):
         if ndigits is not None:
-            raise Abort('round with ndigits')
+            raise Abort('unsupported: round with ndigits')
         ctx = Ctx.cur
         if s.is_int:
             return s
@@ -606,7 +606,7 @@ class SymNum:
         return Ctx.cur.concretize_int(t.e, -64, 64, 'int()')
 
     def __float__(s):
-        raise Abort('float() of symbolic number')
+        raise Abort('unsupported: float() of a symbolic number (a C-level function wants a real double)')
 
     def __repr__(s):
         return 'Sym(%s)' % z3.simplify(s.e)
@@ -614,7 +614,7 @@ class SymNum:
     def __format__(s, spec):
         hook = FORMAT_HOOK[0]
         if hook is None:
-            raise Abort('format of symbolic number')
+            raise Abort('unsupported: format of a symbolic number')
         return hook(s, spec)
 
     def __str__(s):
